@@ -224,8 +224,8 @@ func mutateText(r *rand.Rand, a []string, alpha []string) []string {
 
 func init() {
 	fw.Register(&fw.Check{
-		ID: "C27",
-		Rule: "case 0: all pairs of line sequences of length 0..5 over a 3-line alphabet (364x364 pairs, exhaustive); other cases: batches of random pairs - independent random texts over small alphabets (many repeated lines) and mutated copies (run deletions/insertions up to 20 lines, replacements, block moves) of texts up to 400 lines, with long common runs (>6, >14 lines) and trailing-newline variations. Oracle: unified-diff applier (hunk headers, context lines must match, elided '... N lines skipped ...' runs re-read from the texts) must reproduce b; '+'/'-' count must equal len(a)+len(b)-2*LCS (quadratic DP). Pair non-trivial when texts differ and share at least one line",
+		ID:          "C27",
+		Rule:        "case 0: all pairs of line sequences of length 0..5 over a 3-line alphabet (364x364 pairs, exhaustive); other cases: batches of random pairs - independent random texts over small alphabets (many repeated lines) and mutated copies (run deletions/insertions up to 20 lines, replacements, block moves) of texts up to 400 lines, with long common runs (>6, >14 lines) and trailing-newline variations. Oracle: unified-diff applier (hunk headers, context lines must match, elided '... N lines skipped ...' runs re-read from the texts) must reproduce b; '+'/'-' count must equal len(a)+len(b)-2*LCS (quadratic DP). Pair non-trivial when texts differ and share at least one line",
 		Assumptions: []string{"texts contain no line of the form '  ... N lines skipped ...' (the renderer's own elision marker is ambiguous with such content)"},
 		Cases: func(tier string) int {
 			if tier == "thorough" {
